@@ -108,7 +108,8 @@ def run(ctx):
                 for si, (mode, name, content) in enumerate(ops):
                     put_source(root, name, content)
                     before = listing(root + '/D')
-                    r = scen.run_xcp(root, ['-r', '-T', f'--backup={mode}', '--driver', driver, 'S', 'D'], trace=False)
+                    extra = rng.choice([[], [], [], ['--no-progress'], ['--fsync'], ['--no-perms'], ['--workers', '1'], ['--no-progress', '--no-timestamps']])    # must not matter for backups
+                    r = scen.run_xcp(root, ['-r', '-T', f'--backup={mode}', '--driver', driver] + extra + ['S', 'D'], trace=False)
                     after = listing(root + '/D')
                     states.append((r.cls, after))
                     ctx.count(f'mode.{mode}'); ctx.count(f'exit.{r.cls}')
@@ -214,8 +215,51 @@ def run(ctx):
                                       dict(name=hx(name), driver=driver, mode=mode, plan=plan, exit=r.cls, after=show(after), init=show(init), stderr=r.stderr[-300:]),
                                       f'C09: the backup rename failed ({en}) and the previous version of {name!r} exists nowhere afterwards (exit {r.cls}, {driver}, --backup={mode})')
         ctx.count('rename_fault_points', fp)
+        # --- versions that differ in content only: same length, same modification time (releases with clamped timestamps; xcp
+        # itself copies the source's mtime onto the destination): every overwrite still takes its backup
+        T0 = 1_000_000_000_123_456_789
+        for driver in ('parfile', 'parblock'):
+            for mode in ('numbered', 'auto'):
+                init = {b'conf': b'version=1.0.0', b'conf.~2~': b'older-backup'}
+                setup(root, init)
+                os.utime(os.path.join(os.fsencode(root), b'D', b'conf'), ns=(T0, T0))
+                versions = [b'version=1.0.1', b'version=1.0.2', b'version=1.0.3']
+                seen_old = [init[b'conf']]
+                for si, content in enumerate(versions):
+                    put_source(root, b'conf', content)
+                    os.utime(os.path.join(os.fsencode(root), b'S', b'conf'), ns=(T0, T0))
+                    before = listing(root + '/D')
+                    r = scen.run_xcp(root, ['-r', '-T', f'--backup={mode}', '--driver', driver, 'S', 'D'], trace=False)
+                    after = listing(root + '/D')
+                    ctx.count(f'same_size_mtime.exit.{r.cls}'); ctx.case(('same-size-mtime', driver, mode, si), True)
+                    old = before.get(b'conf')
+                    lost = [v for v in seen_old if v not in after.values()]
+                    if r.cls == '0' and (after.get(b'conf') != content or lost):
+                        ctx.violation(f'same-size-mtime-{driver}-{mode}-{si}.json', dict(driver=driver, mode=mode, step=si, before=show(before), after=show(after)),
+                                      f'C09: overwrite {si + 1} with --backup={mode} (same length, same mtime as the previous version): the version {hx(lost[0]) if lost else "?"} exists nowhere afterwards ({driver})')
+                        break
+                    seen_old.append(content)
+        # --- --force together with --backup on a destination that cannot be opened for writing (a running executable: ETXTBSY; a
+        # read-only file): whatever --force does, the previous version must survive in a backup or in place
+        for driver in ('parfile', 'parblock'):
+            for mode in ('numbered', 'auto'):
+                for en in ('EACCES', 'ETXTBSY'):
+                    init = {b'tool': b'OLD-CONTENT', b'tool.~1~': b'bk1', b'tool.~3~': b'bk3'}
+                    setup(root, init); put_source(root, b'tool', b'NEW-CONTENT-LONGER')
+                    for nth in (1, 2):
+                        setup(root, init); put_source(root, b'tool', b'NEW-CONTENT-LONGER')
+                        plan = [f'fail openat =D/tool {nth} {E[en]}', f'fail openat ={root}/D/tool {nth} {E[en]}']
+                        r = scen.run_xcp(root, ['--force', f'--backup={mode}', '--driver', driver, 'S/tool', 'D/tool'], plan=plan, trace=True)
+                        after = listing(root + '/D')
+                        fired = any(e.get('inj') for e in r.trace)
+                        ctx.count(f'force_backup.{"fired" if fired else "not_fired"}.{r.cls}'); ctx.case(('force-backup', driver, mode, en, nth), fired)
+                        kept = b'OLD-CONTENT' in after.values()
+                        others = all(after.get(kk) == v for kk, v in init.items() if kk != b'tool')
+                        if not kept or not others:
+                            ctx.violation(f'force-backup-{driver}-{mode}-{en}-{nth}.json', dict(driver=driver, mode=mode, plan=plan, exit=r.cls, after=show(after), init=show(init), stderr=r.stderr[-300:]),
+                                          f'C09: --force --backup={mode} on a destination whose open fails ({en}): the previous version exists nowhere afterwards (exit {r.cls}, {driver})')
     ctx.cov['rule'] = ('histories: 3-7 invocations over 1-3 names (prefix-related, backup-looking, non-UTF-8, long) with initial backup sets incl. gaps, '
-                       'numbers near 2^64, malformed numbers; kill before/after every mutating call of an overwrite; the backup rename failing with EIO/EPERM/ENAMETOOLONG/ENOSPC. distinct = distinct (history, driver) or kill point; '
+                       'numbers near 2^64, malformed numbers; kill before/after every mutating call of an overwrite; the backup rename failing with EIO/EPERM/ENAMETOOLONG/ENOSPC; versions of equal length and mtime; --force with an unopenable destination. distinct = distinct (history, driver) or kill point; '
                        'non-trivial = at least one non-none mode')
     ctx.assumptions += ['rename(2) is atomic', 'SIGKILL leaves exactly the effects of completed calls']
 
